@@ -5,6 +5,7 @@
   `find_shortest_path`, context-aware `_convert`).
 -/
 import PintModel.Model.Context
+import PintModel.Proofs.BfsLemmas
 
 namespace Pint.Props.C11
 open Pint Pint.Ctx
@@ -115,5 +116,37 @@ theorem C11_unreachable (R : Registry) (m : Mode) (st : State) (x : Rat) (src ds
 theorem C11_no_context (R : Registry) (m : Mode) (st : State) (x : Rat) (src dst : UC)
     (h : st.active = []) : convert R m st x src dst = R.convert x src dst m.autoconvert := by
   unfold convert; simp [h]
+
+/-! ### the path search (`find_shortest_path` as a breadth-first search over the active graph) -/
+
+/-- a returned path is a walk of the active graph from the source dimension to the destination -/
+theorem C11_path_valid {es : List (UC × UC)} (hr : Pint.Ctx.EdgeRefl es) {s t : UC} {p : List UC}
+    (h : Pint.Ctx.findShortestPath es s t = some p) :
+    Pint.Ctx.isPath es p = true ∧ p.head? = some s ∧ ∃ last, p.getLast? = some last ∧ last.beq t = true :=
+  Pint.Ctx.bfs_path hr h
+
+/-- and no walk from source to destination is shorter -/
+theorem C11_path_shortest {es : List (UC × UC)} (hr : Pint.Ctx.EdgeRefl es) {s t : UC} (hs : s.beq s = true)
+    {p : List UC} (h : Pint.Ctx.findShortestPath es s t = some p) :
+    ∀ p' : List UC, Pint.Ctx.isPath es p' = true → p'.head? = some s →
+      (∃ last, p'.getLast? = some last ∧ last.beq t = true) → p.length ≤ p'.length :=
+  Pint.Ctx.bfs_shortest hr hs h
+
+/-- when the search ends without exhausting its fuel, "no path" means the destination is unreachable.
+    PARTIAL: the fuel hypothesis is needed — `Proofs/BfsFuelCounterexample.lean` exhibits a 12-layer graph
+    on which the model's polynomial fuel runs out; pint's own search has no fuel and no context graph in
+    pint's data or in the generated scenarios comes near that size (the harness compares every answer). -/
+theorem C11_path_none_partial {es : List (UC × UC)} (hr : Pint.Ctx.EdgeRefl es) {s t : UC}
+    (hs : s.beq s = true) (h : Pint.Ctx.findShortestPath es s t = none)
+    (hfuel : Pint.Ctx.bfsExhausts es t ((es.length + 2) * (es.length + 2) + 2) [(s, [s])] [] = false) :
+    ¬ ∃ p, Pint.Ctx.isPath es p = true ∧ p.head? = some s ∧ (∃ l, p.getLast? = some l ∧ l.beq t = true) :=
+  Pint.Ctx.bfs_none_unreachable hr hs h hfuel
+
+/-- the hypotheses are met by containers without duplicate keys (every container pint builds) -/
+theorem C11_edgeRefl {es : List (UC × UC)} (h : ∀ e ∈ es, (e.2.map (·.1)).Nodup) : Pint.Ctx.EdgeRefl es :=
+  Pint.Ctx.edgeRefl_of_nodup h
+
+example : Pint.Ctx.findShortestPath [([("[length]", 1)], [("[time]", 1)]), ([("[time]", 1)], [("[mass]", 1)])]
+    [("[length]", 1)] [("[mass]", 1)] = some [[("[length]", 1)], [("[time]", 1)], [("[mass]", 1)]] := by decide +kernel
 
 end Pint.Props.C11
